@@ -235,7 +235,32 @@ def mh_map(kind: str, xb, z, s):
         return xb * np.exp(s * z)
     if kind == "indep":
         return np.array(MH_CENTER)[: xb.size] + s * z
+    if kind == "onesided":
+        return xb + s * np.abs(z)
+    if kind == "gate":
+        return xb + s * z
     raise ValueError(kind)
+
+
+MH_GATE = 0.55
+
+
+def mh_logcorr(kind: str, x_from, x_to, s) -> float:
+    """The log-correction log[q(x_from|x_to) / q(x_to|x_from)] the user DECLARES for the move."""
+    if kind == "gate":
+        # a user proposal that declares moves with (x'_0 - x_0)/s beyond +-MH_GATE as
+        # one-directional: correction +inf one way, -inf the other way, 0 in between
+        d = (np.asarray(x_to, dtype=np.float64)[0] - np.asarray(x_from, dtype=np.float64)[0]) / s
+        if d > MH_GATE:
+            return math.inf
+        if d < -MH_GATE:
+            return -math.inf
+        return 0.0
+    fwd = mh_logq(kind, x_to, x_from, s)
+    bwd = mh_logq(kind, x_from, x_to, s)
+    if fwd == -math.inf and bwd == -math.inf:
+        return float("nan")
+    return bwd - fwd
 
 
 def mh_logq(kind: str, xto, xfrom, s) -> float:
@@ -247,6 +272,12 @@ def mh_logq(kind: str, xto, xfrom, s) -> float:
         return mvn_logpdf(xto, xfrom + s * MH_DRIFT, s * s * np.eye(k))
     if kind == "indep":
         return mvn_logpdf(xto, np.array(MH_CENTER)[:k], s * s * np.eye(k))
+    if kind == "onesided":
+        # every component moves up by s|z_i|: half-normal on [xfrom, inf); at xto == xfrom the
+        # (degenerate) move is its own reverse
+        if np.any(xto < xfrom):
+            return -math.inf
+        return mvn_logpdf(xto, xfrom, s * s * np.eye(k)) + k * math.log(2.0)
     if kind == "mult":
         # log-normal: log xto ~ N(log xfrom, s^2), density w.r.t. xto
         if np.any(xto <= 0) or np.any(xfrom <= 0):
